@@ -106,6 +106,16 @@ func runC16(p *core.Program, r *core.Report) {
 		// … and that a class flag contributes exactly the characters of its class string,
 		// an exclusion removes exactly those (= C03 R3.1-R3.3 re-run on the alphabet builder)
 		r.Borrow("R16.1", func() { checkAlphabetBuilder(p, r) })
+		// "uniformly, with the matching entropy": the presets are character recipes, so the draw
+		// routine and the generation shape carry over (= C01 R1.x and C02 R2.2-R2.5 re-run)
+		r.Borrow("R16.3", func() {
+			checkDrawRoutines(p, r, "R1.1", "R1.2", "R1.3")
+			if g, _ := resolveCharGen(p); g != nil {
+				checkDrawShape(p, r, g, "R2.2", "R2.3")
+				checkWholeCandidateRejection(p, r, g, "R2.4")
+				checkFilterAllOf(p, r, g, "R2.5")
+			}
+		})
 	}
 
 	// ---- R16.1
